@@ -222,7 +222,31 @@ class Ite(V):
         self._h = None
 
     def __eq__(self, o):
-        return isinstance(o, Ite) and self.c is o.c and self.a == o.a and self.b == o.b
+        if self is o:
+            return True
+        if not isinstance(o, Ite):
+            return False
+        # trees share subterms: walk the pair DAG once (a recursive comparison visits every path)
+        seen = set()
+        stack = [(self, o)]
+        while stack:
+            x, y = stack.pop()
+            if x is y:
+                continue
+            k = (id(x), id(y))
+            if k in seen:
+                continue
+            seen.add(k)
+            if type(x) is Ite and type(y) is Ite:
+                if x.c is not y.c or hash(x) != hash(y):
+                    return False
+                stack.append((x.a, y.a))
+                stack.append((x.b, y.b))
+            elif type(x) is Ite or type(y) is Ite:
+                return False
+            elif x != y:
+                return False
+        return True
 
     def __ne__(self, o):
         return not self.__eq__(o)
